@@ -12,7 +12,8 @@ namespace Mido
 open Mido.Py
 
 /-- a model event as the translator's message record (Python ints are `Int`) -/
-def TEv.toSrc (e : TEv) : TMsg := ⟨e.id, e.eot, e.time⟩
+def TEv.toSrc (e : TEv) : TMsg :=
+  { id := e.id, eot := e.eot, time := e.time, isMeta := e.eot, bytes := if e.eot then .ok [255, 47, 0] else .ok [] }
 
 /-! ### `_to_abstime` -/
 
@@ -122,7 +123,8 @@ theorem src_to_reltime (es : List TEv) (hc : chainLe 0 es) :
 
 /-- on a list that is NOT sorted the Python code produces a negative delta where the model (natural numbers)
     truncates: the hypothesis of `src_to_reltime` is necessary, and `merge_tracks` always meets it -/
-example : Src._to_reltime [⟨1, false, 5⟩, ⟨2, false, 3⟩] = .ok [⟨1, false, 5⟩, ⟨2, false, -2⟩] := by decide
+example : Src._to_reltime [{ id := 1, eot := false, time := 5 }, { id := 2, eot := false, time := 3 }]
+    = .ok [{ id := 1, eot := false, time := 5 }, { id := 2, eot := false, time := -2 }] := by decide
 
 /-! ### `merge_tracks` -/
 
